@@ -7,6 +7,7 @@ CONSTANTS
   AliasMenu <- None
   LimitMenu <- None
   LookupExtra <- None
+  DupLast = FALSE
   Hist = FALSE
 INVARIANTS TRWExcl
 POSTCONDITION Accepted
